@@ -1282,7 +1282,8 @@ class Fxp():
                     return v
                 if isinstance(v, Fraction):
                     return self._round_exact(v, method)
-                r = self._round(np.float64(v), method=method)
+                # (an extended-precision float keeps its type: a cast to float64 would round it before the configured rounding)
+                r = self._round(v if isinstance(v, np.floating) and v.dtype.itemsize > 8 else np.float64(v), method=method)
                 # (a rounded float as a Python integer: its comparison with a bound of more than 53 bits is then exact)
                 return int(r) if method and np.isfinite(r) else r
             rval = np.array([_round_item(v) for v in _val.flatten()] + [None], dtype=object)[:-1].reshape(_val.shape)
